@@ -1143,14 +1143,19 @@ func (li *logInfo) toHTTPStatus(err error) int {
 		}
 	}
 
+	// A backend client may hand back the context's own error for a timeout.
+	if errors.Is(err, context.DeadlineExceeded) || errors.Is(err, context.Canceled) {
+		return http.StatusGatewayTimeout
+	}
+
 	rpcStatus, ok := status.FromError(err)
 	if !ok {
 		return http.StatusInternalServerError
 	}
 
+	// Note: there is an error, so a status that claims OK is not to be believed
+	// (it maps to 500 below).
 	switch rpcStatus.Code() {
-	case codes.OK:
-		return http.StatusOK
 	case codes.Canceled, codes.DeadlineExceeded:
 		return http.StatusGatewayTimeout
 	case codes.InvalidArgument, codes.OutOfRange, codes.AlreadyExists:
